@@ -463,7 +463,8 @@ def model_merge(tag, jobs):
     for i, (defs, schemas) in enumerate(jobs):
         try:
             L = tocoq.clist(schemas, tocoq.cschema, "schema")
-            e = ("(let L := %s in String.append (if forallb (obj_frag TNumber) L || forallb (obj_frag TInteger) L then \"E\" "
+            e = ("(let L := %s in String.append (if forallb (obj_frag false TNumber) L || forallb (obj_frag false TInteger) L then \"E\" "
+                 "else if forallb (obj_frag true TNumber) L || forallb (obj_frag true TInteger) L then \"A\" "
                  "else if forallb ofrag L then \"O\" else if forallb sfrag L then \"S\" else \"-\") "
                  "(show_mres (merge_all %s 40 L)))" % (L, tocoq.cdefs(defs)))
         except (tocoq.Unsupported, KeyError, TypeError) as ex:  # noqa
@@ -964,7 +965,8 @@ def run(ctx):
                                        "real": a, "model": b})
                 fr = collections.Counter(getattr(model_merge, "frag", {}).values())
                 ctx.coverage["k1_lists_inside_theorem_fragments"] = {
-                    "obj_frag (exactness: C09_merge_all_exact_obj / C09_merge_all_perm_equiv apply)": fr.get("E", 0),
+                    "obj_frag without arrays (exactness, C09_merge_all_exact_obj / C09_merge_all_perm_equiv apply)": fr.get("E", 0),
+                    "obj_frag with arrays (same theorems, instances without empty arrays)": fr.get("A", 0),
                     "ofrag only (C09_merge_all_obj_sound_partial applies)": fr.get("O", 0),
                     "sfrag only (C09_merge_all_sound_partial applies)": fr.get("S", 0), "outside": fr.get("-", 0)}
                 ctx.coverage["k1_compared"] = n_cmp
